@@ -49,32 +49,36 @@ def _quiet():
 # ==========================================================================
 # part 1: the specification itself
 # ==========================================================================
-def _sampler_cfg(ctx, name, variant, nset, maxw, maxlen, maxb, unums, ubounds):
+def _sampler_cfg(ctx, name, variant, nset, maxw, maxlen, maxb, unums, ubounds, imps=(2,)):
     p = os.path.join(ctx.work, name)
     with open(p, "w") as f:
         f.write(
-            'CONSTANTS\n Variant = "%s"\n NSet = {%s}\n MaxW = %d\n MaxLen = %d\n MaxBatches = %d\n UNums = {%s}\n UDen = %d\n'
+            'CONSTANTS\n Variant = "%s"\n NSet = {%s}\n MaxW = %d\n ImpNums = {%s}\n ImpDen = 2\n MaxLen = %d\n MaxBatches = %d\n UNums = {%s}\n UDen = %d\n'
             " UserBounds = {%s}\n PhNSet = {1}\n PhCap = 3\n PhMaxRefill = 1\n PhMaxNodes = 1\n"
             "INIT InitAR\nNEXT NextAR\n"
             "INVARIANT ArTypeOK\nINVARIANT BoundGeWeight\nINVARIANT Proportional\nINVARIANT ThinIsProbability\n"
             "INVARIANT CountConsistent\nINVARIANT LoopExit\nINVARIANT ResultLength\nINVARIANT ResultIsPrefix\nINVARIANT Ordered\n"
             "CHECK_DEADLOCK FALSE\n"
-            % (variant, ",".join(map(str, nset)), maxw, maxlen, maxb, ",".join(map(str, unums)), S.UDEN, ",".join(map(str, ubounds)))
+            % (variant, ",".join(map(str, nset)), maxw, ",".join(map(str, imps)), maxlen, maxb, ",".join(map(str, unums)), S.UDEN, ",".join(map(str, ubounds)))
         )
     return p
 
 
 def part_spec(ctx):
     quick = ctx.tier == "quick"
+    # imps: importance values k/2; (2,) = no importance function
     runs = [
-        ("multi", "NextAR", [1, 2, 3], 3, 2, 3 if quick else 4, [0, 8, 15], [2, 3]),
-        ("interp", "NextAR", [1, 2, 3], 3, 2, 3 if quick else 4, [0, 8, 15], []),
+        ("multi", "NextAR", [1, 2, 3], 3, 2, 3 if quick else 4, [0, 8, 15], [2, 3], (2,)),
+        ("interp", "NextAR", [1, 2, 3], 3, 2, 3 if quick else 4, [0, 8, 15], [], (2,)),
+        # importance-weighted sampling: amplitudes 0..2, importance 1/2, 1, 2 (effective weights 0..4)
+        ("multi", "NextAR", [1, 2], 2, 2, 2 if quick else 3, [0, 8, 15], [2], (1, 2, 4)),
     ]
     if not quick:  # the general actions (bounds chosen freely among admissible values)
-        runs.append(("multi", "NextARG", [1, 2], 3, 2, 2, [0, 8, 15], [2, 3]))
-        runs.append(("interp", "NextARG", [1, 2], 3, 2, 2, [0, 8, 15], []))
-    for variant, nxt, nset, maxw, maxlen, maxb, unums, ub in runs:
-        cfg = _sampler_cfg(ctx, "sampler_%s_%s.cfg" % (variant, nxt), variant, nset, maxw, maxlen, maxb, unums, ub)
+        runs.append(("multi", "NextARG", [1, 2], 3, 2, 2, [0, 8, 15], [2, 3], (2,)))
+        runs.append(("interp", "NextARG", [1, 2], 3, 2, 2, [0, 8, 15], [], (2,)))
+    for variant, nxt, nset, maxw, maxlen, maxb, unums, ub, imps in runs:
+        withimp = len(imps) > 1
+        cfg = _sampler_cfg(ctx, "sampler_%s_%s_%d.cfg" % (variant, nxt, len(imps)), variant, nset, maxw, maxlen, maxb, unums, ub, imps)
         if nxt != "NextAR":
             with open(cfg) as f:
                 txt = f.read().replace("NEXT NextAR", "NEXT " + nxt)
@@ -84,8 +88,8 @@ def part_spec(ctx):
         if r.violation:
             raise tlc.MachineryError("Sampler (%s, %s) violates its own invariant %s: %s" % (variant, nxt, r.violation, r.trace[-1:] if r.trace else ""))
         general = nxt == "NextARG"
-        ctx.tlc(r, "Sampler AR %s %s" % (variant, nxt), vacuity_actions=["BatchGStep" if general else "BatchG", "ThinGStep" if general else "ThinStep", "Truncate"])
-        ctx.part("spec_sampler_%s%s" % (variant, "_general" if general else ""), states=r.distinct, batches=r.coverage.get("BatchGStep" if general else "BatchG", 0),
+        ctx.tlc(r, "Sampler AR %s %s%s" % (variant, nxt, " importance" if withimp else ""), vacuity_actions=["BatchGStep" if general else "BatchG", "ThinGStep" if general else "ThinStep", "Truncate"])
+        ctx.part("spec_sampler_%s%s%s" % (variant, "_general" if general else "", "_importance" if withimp else ""), states=r.distinct, batches=r.coverage.get("BatchGStep" if general else "BatchG", 0),
                  thins=r.coverage.get("ThinGStep" if general else "ThinStep", 0), truncations=r.coverage.get("Truncate", 0), max_batches=maxb, max_weight=maxw)
 
 
@@ -116,8 +120,9 @@ def part_traces(ctx, rng):
         rec = S.ARRecorder(rng, maxw, UNUMS, controlled=controlled)
         N = int(rng.integers(1, 7))
         max_n = int(rng.integers(1, 6))
+        importance = j % 5 in (1, 3)  # 40 % of the traces pass an importance function
         try:
-            tr, ids = rec.multi(N, max_n, bound0=b0, bound_kind="tensor")
+            tr, ids = rec.multi(N, max_n, bound0=b0, bound_kind="tensor", importance=importance)
         except tlc.MachineryError:
             raise
         except Exception as e:  # the real sampler raised
@@ -129,6 +134,15 @@ def part_traces(ctx, rng):
             ctx.violation("multi_sampling:count", {"N": N, "returned": len(ids), "trace": tr})
         if len(set(map(tuple, ids))) != len(ids):
             ctx.violation("multi_sampling:duplicate_events", {"N": N, "ids": ids})
+        # "no accepted event has a weight above the bound it was accepted with": effective weight amp / importance
+        for e in tr["ev"]:
+            if e["a"] == "Batch":
+                eff = [Fraction(a) / Fraction(*g) for a, g in zip(e["as"], e["ims"])]
+                over = [i for i in e["acc"] if eff[i - 1] > Fraction(*e["local"])]
+                if over:
+                    ctx.violation("multi_sampling:accepted_weight_above_bound%s" % (":importance_f" if importance else ""),
+                                  {"amplitudes": e["as"], "importances": e["ims"], "accepted": e["acc"], "bound": e["local"], "positions_above_bound": over})
+                    break
         traces.append(tr)
         if j == 1:
             ctx.sample({"trace_multi_sampling": tr})
@@ -137,7 +151,12 @@ def part_traces(ctx, rng):
         ctx.violation(_trace_key("multi", tr, k, reason), {"trace": tr, "first_unmatched_record": k, "reason": reason})
     n_thin = sum(any(e["a"] == "Thin" for e in t["ev"]) for t in traces)
     n_raise_user = sum(1 for t in traces if t["hasB"] and any(e["a"] == "Batch" and e["hasBin"] and Fraction(*e["local"]) != Fraction(*e["bin"]) for e in t["ev"]))
-    ctx.part("traces_multi", model_drift=sum(S.drift_of(t, "multi") for t in traces), recorded=len(traces), accepted=acc, rejected=len(rej), with_thinning=n_thin, user_bound_raised=n_raise_user, exact_random_numbers=sum(1 for t in traces if t["exact"]))
+    n_imp = sum(1 for t in traces if t["importance"])
+    n_imp_decisive = sum(1 for t in traces if t["importance"] and any(
+        e["a"] == "Batch" and max(Fraction(a) / Fraction(*g) for a, g in zip(e["as"], e["ims"])) > max(e["as"]) for e in t["ev"]))
+    if (n_imp_decisive == 0) and not ctx.violations:
+        raise tlc.MachineryError("no trace in which the largest effective weight exceeds the largest amplitude")
+    ctx.part("traces_multi", with_importance_f=n_imp, importance_raises_maximum=n_imp_decisive, model_drift=sum(S.drift_of(t, "multi") for t in traces), recorded=len(traces), accepted=acc, rejected=len(rej), with_thinning=n_thin, user_bound_raised=n_raise_user, exact_random_numbers=sum(1 for t in traces if t["exact"]))
     if (n_thin == 0 or n_raise_user == 0) and not ctx.violations:
         raise tlc.MachineryError("trace driver never reached thinning / raising of a user bound")
     ctx.count(len(traces), distinct_key="traces_multi")
@@ -185,13 +204,13 @@ def part_traces(ctx, rng):
                 what = "final bound"
             elif j % 3 == 1:  # accepted positions of the first batch
                 e = t["ev"][0]
-                e["acc"] = [x for x in range(1, len(e["ws"]) + 1) if x not in e["acc"]] or [1]
+                e["acc"] = [x for x in range(1, len(e["as"]) + 1) if x not in e["acc"]] or [1]
                 if e["acc"] == t["ev"][0]["acc"]:
                     e["acc"] = []
                 what = "accepted positions"
             else:  # one weight
                 e = t["ev"][0]
-                e["ws"][0] = e["ws"][0] + 5
+                e["as"][0] = e["as"][0] + 5
                 what = "weight"
             demos.append((what, t))
         n_rej = 0
@@ -648,9 +667,23 @@ def part_classes(ctx, rng):
     wj = np.array([2.0**j for j in range(J + 1)])
     q = p * wj / np.sum(p * wj)
     N = 20000 if quick else 100000
-    scenarios = [("none", None, 20000), ("low_bound", 1.5, 20000), ("small_batches", None, 3000)]
+    scenarios = [("none", None, 20000), ("low_bound", 1.5, 20000), ("small_batches", None, 3000), ("importance", None, 20000)]
+    p_plain, wj_plain, q_plain = p, wj, q
     for name, b0, max_n in scenarios:
         nb = [0]
+        if name == "importance":
+            # proposal p_j ~ 8^-j with importance_f g_j = 4 * 2^-j (above and below 1, small where the amplitude
+            # 2^j is large): effective weight 4^j / 4, accepted fractions q_j ~ p_j 4^j ~ 2^-j.  The largest effective
+            # weight (64) is far above the largest amplitude (16).
+            J = 4
+            p = np.array([8.0**-j for j in range(J + 1)])
+            p /= p.sum()
+            wj = np.array([2.0**j for j in range(J + 1)])
+            gj = np.array([4.0 * 2.0**-j for j in range(J + 1)])
+            q = p * wj / gj / np.sum(p * wj / gj)
+            imp_f = lambda d: tf.gather(tf.constant(gj), d["c"])  # noqa: E731
+        else:
+            J, p, wj, q, imp_f = len(p_plain) - 1, p_plain, wj_plain, q_plain, None
 
         def phsp(n):
             nb[0] += 1
@@ -659,7 +692,7 @@ def part_classes(ctx, rng):
         def amp(d):
             return tf.gather(tf.constant(wj), d["c"])
 
-        ret, st = multi_sampling(phsp, amp, N, max_N=max_n, max_weight=None if b0 is None else tf.constant(b0, dtype="float64"), display=False)
+        ret, st = multi_sampling(phsp, amp, N, max_N=max_n, max_weight=None if b0 is None else tf.constant(b0, dtype="float64"), importance_f=imp_f, display=False)
         cls = ret["c"].numpy()
         key = "classes:%s" % name
         ctx.count(int(cls.shape[0]), distinct_key=key)
@@ -682,6 +715,10 @@ def part_classes(ctx, rng):
         pr = float(sum(q[j] for j in g))
         pv.append((g, k, N * pr, float(stats.binomtest(k, N, pr).pvalue)))
         ctx.part("classes_" + name, N=N, batches=nb[0], min_p=min(x[3] for x in pv), final_bound=float(st[1]))
+        if name == "importance":
+            eff_max = float(np.max(wj / gj))
+            if float(st[1]) < eff_max:
+                ctx.violation(key + ":final_bound_below_effective_weight", {"final_bound": float(st[1]), "largest_effective_weight": eff_max, "largest_amplitude": float(wj.max())})
         for g, k, e, pval in pv:
             if pval < ALPHA_EXACT:
                 ctx.violation(key + ":fraction:classes=%s" % g, {"observed": k, "expected": e, "p": pval, "alpha": ALPHA_EXACT})
